@@ -37,7 +37,11 @@ COMPONENTS = {
              'node storage (None)', 'thin announcers and hostile reply rewriting (harness)', 'event loop (SimLoop)'],
 }
 ASSUMPTIONS = [
-    'hit guarantee asserted only in the loss-free honest family with round trip below the 5 s RPC timeout and a settle period >= 10 min',
+    'hit guarantee asserted only in the loss-free honest family with round trip below the 5 s RPC timeout; a quarter of those '
+    'runs are YOUNG networks (every node joined, but only 15..200 s ago): a node waits 300 s before it pings a newcomer that '
+    'sent it a request, so young announcements can go to the wrong nodes - genuine, recorded as known finding '
+    'C12-young-network (site young=True), the audit\'s three-line repair (ping at once while the bucket has room) '
+    'was tried and made other clauses fail in this environment, so it was not applied',
     'a lookup is judged `must hit` only if it ended before announce start + 24 h - 60 s, `must miss` only if it started after announce end + 24 h',
     'fabricated contacts are silent addresses unless the behaviour says otherwise (alias_honest: a live honest node; key_as_id, '
     'endless_closer: the hostile node itself); endless_pages / endless_closer never run out of fresh material',
@@ -234,6 +238,27 @@ def gen(run_seed, tier):
                 other = rp.choice([i for i in range(sc['n']) if i != victim])
                 idx = sc['ops'].index(first)
                 sc['ops'].insert(idx, {'op': 'announce', 'node': other, 'blob': first['blob'], 'wait': 0.0})
+    # a YOUNG network: every node has joined (its own `joined` flag is set), but only seconds to minutes ago - well
+    # inside the five minutes a node waits before it pings a newcomer that sent it a request (own stream)
+    ry = stream('C12.gen.young', run_seed)
+    if sc['family'] == 'hit' and ry.random() < 0.25:
+        for k, op in enumerate(sc['ops']):
+            if op['op'] == 'sleep':
+                sc['ops'][k] = {'op': 'sleep', 'dt': ry.choice([15, 40, 100, 200])}
+                sc['ops'].insert(k, {'op': 'await_joined'})
+                sc['young'] = True
+                break
+    # paging while the set still grows: more announcers store on the same node DURING the lookups (own stream)
+    rg = stream('C12.gen.paging_growing', run_seed)
+    if sc['family'] == 'paging' and rg.random() < 0.4:
+        for k, op in enumerate(sc['ops']):
+            if op['op'] == 'lookup':
+                ta = next(o for o in sc['ops'] if o['op'] == 'thin_announce')
+                sc['ops'].insert(k, {'op': 'thin_announce_bg', 'count': rg.choice([3, 8, 13, 20]), 'target': ta['target'],
+                                     'blob': ta['blob'], 'start_in': round(rg.choice([0.9, 1.0, 1.02, 1.05, 1.1]), 3),
+                                     'every': rg.choice([0.01, 0.03, 0.1])})
+                sc['growing'] = True
+                break
     return sc
 
 
@@ -296,6 +321,7 @@ def run_dht(scenario, run, monitor=False, corrupt_factory=None, max_steps=12_000
     started = set()
     announces = {}      # blob int -> list of dict(node, start, end, stored_to)
     thin = {}           # blob int -> list of ThinAnnouncer
+    background = []     # harness tasks that keep announcing while lookups run
     judged = [0]
     if corrupt_factory is not None:
         world.corrupt = corrupt_factory(world)
@@ -457,7 +483,7 @@ def run_dht(scenario, run, monitor=False, corrupt_factory=None, max_steps=12_000
                 announces.setdefault(op['blob'], []).append(rec)
                 if not stored_to and len(started) > 1 and fam != 'heal':
                     run.violation('C12.announce_stored_nowhere', f'announce_blob by node {i} stored on no node '
-                                  f'in a loss-free honest network of {len(started)}')
+                                  f'in a loss-free honest network of {len(started)}', young=bool(scenario.get('young')))
                     return
                 my = (world.addr_of[i][0], node.protocol.peer_port)
                 for nid in stored_to:
@@ -484,8 +510,42 @@ def run_dht(scenario, run, monitor=False, corrupt_factory=None, max_steps=12_000
                 if fam == 'hit' and len(stored_idx & set(closest)) * 2 < min(len(stored_idx), len(closest)):
                     run.violation('C12.stored_far_from_hash', f'announce_blob by node {i} stored on nodes '
                                   f'{sorted(x for x in stored_idx if x is not None)} but the {len(closest)} nodes closest to '
-                                  f'the hash are {closest}')
+                                  f'the hash are {closest}', young=bool(scenario.get('young')))
                     return
+            elif kind == 'await_joined':
+                for _ in range(600):
+                    if all(world.nodes[j].joined.is_set() for j in started):
+                        break
+                    await asyncio.sleep(1.0)
+                else:
+                    run.notes.append('not every node joined within 600 s')
+                run.probes['young_network'] += 1
+                run.ev('await_joined', round(loop.time(), 1))
+            elif kind == 'thin_announce_bg':
+                t = op['target']
+                if t not in started:
+                    continue
+                key = (op['blob'] % (1 << 384)).to_bytes(48, 'big')
+                tr = run.rng('thin_bg', n_op)
+                lst = thin.setdefault(op['blob'], [])
+                base = 1000 + len(lst)
+
+                async def grow(op=op, t=t, key=key, tr=tr, lst=lst, base=base):
+                    await asyncio.sleep(op.get('start_in', 1.0))
+                    for c in range(op['count']):
+                        addr = (f"{70 + c // 200}.{1 + c % 200}.{8}.{9}", 5000 + base + c)
+                        ta = ThinAnnouncer(world, addr, tr.getrandbits(384).to_bytes(48, 'big'), 7000 + base + c)
+                        world.net.attach(addr, ta)
+                        try:
+                            if await ta.announce(world.addr_of[t], key, tr):
+                                ta.done_at = loop.time()
+                                lst.append(ta)
+                        except asyncio.TimeoutError:
+                            pass
+                        await asyncio.sleep(op.get('every', 0.03))
+                background.append(loop.create_task(grow()))
+                run.probes['paging_set_grows_during_lookup'] += 1
+                run.ev('thin_announce_bg', op['count'])
             elif kind == 'thin_announce':
                 t = op['target']
                 if t not in started:
@@ -505,6 +565,7 @@ def run_dht(scenario, run, monitor=False, corrupt_factory=None, max_steps=12_000
                         except asyncio.TimeoutError:
                             continue
                     if ok:
+                        ta.done_at = loop.time()
                         lst.append(ta)
                 run.ev('thin_announce', op['count'], len(lst))
                 held = list(world.nodes[t].protocol.data_store.filter_expired_peers(key))
@@ -608,7 +669,7 @@ def run_dht(scenario, run, monitor=False, corrupt_factory=None, max_steps=12_000
                             run.violation('C12.miss_before_expiry', f'value lookup by node {i} at age '
                                           f'{t0 - latest["end"]:.0f}s (of the latest of {len(recs)} announcements) did not '
                                           f'return announcer node {a} (network of {len(started)}, found {len(got)})',
-                                          n=len(started), reannounced=len(recs) > 1)
+                                          n=len(started), reannounced=len(recs) > 1, young=bool(scenario.get('young')))
                             return
                     elif all(t0 > rec['end'] + EXPIRY for rec in recs):
                         run.probes['lookup_must_miss'] += 1
@@ -619,7 +680,8 @@ def run_dht(scenario, run, monitor=False, corrupt_factory=None, max_steps=12_000
                     else:
                         run.probes['lookup_indeterminate'] += 1
                 if op.get('expect_thin'):
-                    want = {(t.addr[0], t.tcp_port) for t in thin.get(op['blob'], [])}
+                    # every announcer whose store was acknowledged before this lookup began
+                    want = {(t.addr[0], t.tcp_port) for t in thin.get(op['blob'], []) if getattr(t, 'done_at', 0.0) <= t0}
                     run.probes['paging_checked'] += 1
                     if any(rec['node'] == i for rec in announces.get(op['blob'], [])):
                         run.probes['paging_searcher_is_announcer'] += 1
